@@ -28,6 +28,7 @@ type Config struct {
 	ClockStepMs  int          `json:"clockStepMs,omitempty"`
 	Faulty       bool         `json:"faulty,omitempty"`   // failing faults may be attached to ops
 	CrashAll     bool         `json:"crashAll,omitempty"` // take a crash snapshot at every I/O boundary (C15)
+	CrashFrom    int          `json:"crashFrom,omitempty"` // crash snapshots only for operations with at least this index
 	Buckets      []string     `json:"buckets,omitempty"`  // buckets created by setup
 	Versioned    bool         `json:"versioned,omitempty"`
 	Mode         string       `json:"mode,omitempty"` // seq (model-checked) | lin (C07) | raw (C09)
